@@ -10,6 +10,7 @@ mod verif_kani_weekday_set {
     fn bit(d: Weekday) -> u8 { 1u8 << wd_idx(d) }
     fn popcount(m: u8) -> u8 { let mut c = 0; let mut i = 0; while i < 8 { if m & (1 << i) != 0 { c += 1; } i += 1; } c }
 
+    // fns: WeekdaySet::{contains, single, union, intersection, difference, symmetric_difference, is_subset, len, is_empty, insert, remove, EMPTY, ALL}
     #[kani::proof]
     #[kani::unwind(9)]
     fn vk_wset_set_algebra() {
@@ -31,6 +32,7 @@ mod verif_kani_weekday_set {
         assert!((a == b) == (a.0 == b.0));
     }
 
+    // fns: WeekdaySet::{first, last, single_day, split_at}
     #[kani::proof]
     #[kani::unwind(9)]
     fn vk_wset_first_last_single() {
@@ -52,6 +54,7 @@ mod verif_kani_weekday_set {
         assert!(before.0 == a.0 & (bit(d) - 1) && after.0 == a.0 & !(bit(d) - 1) & 127, "split_at partitions at d");
     }
 
+    // fns: WeekdaySet::iter, WeekdaySetIter::next, ExactSizeIterator::len
     #[kani::proof]
     #[kani::unwind(9)]
     fn vk_wset_iter_forward() {
@@ -83,6 +86,7 @@ mod verif_kani_weekday_set {
         assert!(false, "at most 7 items");
     }
 
+    // fns: WeekdaySetIter::next_back
     #[kani::proof]
     #[kani::unwind(9)]
     fn vk_wset_iter_backward() {
@@ -112,6 +116,7 @@ mod verif_kani_weekday_set {
         assert!(false, "at most 7 items");
     }
 
+    // fns: WeekdaySetIter::next + next_back interleaved
     #[kani::proof]
     #[kani::unwind(9)]
     fn vk_wset_iter_mixed() {
@@ -140,6 +145,7 @@ mod verif_kani_weekday_set {
         assert!(false, "at most 7 items");
     }
 
+    // fns: WeekdaySet::from_array
     #[kani::proof]
     #[kani::unwind(9)]
     fn vk_wset_from_array() {
